@@ -12,6 +12,7 @@
 #include <terminalpp/terminal.hpp>
 #include <terminalpp/detail/parser.hpp>
 
+#include <algorithm>
 #include <cstdio>
 #include <cstdlib>
 #include <functional>
@@ -391,8 +392,15 @@ void do_canvas(std::ostream &out, world &w, toks &t)
         w.canvases[id] = std::make_unique<canvas>(extent{coordinate_type(a), coordinate_type(b)});
         return;
     }
+    if (op == "copy")
+    {
+        w.canvases[id] = std::make_unique<canvas>(*w.canvases.at(t.num()));
+        return;
+    }
     auto &c = *w.canvases.at(id);
-    if (op == "set") { long x = t.num(), y = t.num(); c[coordinate_type(x)][coordinate_type(y)] = mk_elem(t); }
+    if (op == "fill") { auto const e = mk_elem(t); std::fill(c.begin(), c.end(), e); }
+    else if (op == "iterset") { long i = t.num(); auto const e = mk_elem(t); *(c.begin() + i) = e; }
+    else if (op == "set") { long x = t.num(), y = t.num(); c[coordinate_type(x)][coordinate_type(y)] = mk_elem(t); }
     else if (op == "resize") { long a = t.num(), b = t.num(); c.resize({coordinate_type(a), coordinate_type(b)}); }
     else if (op == "dump")
     {
@@ -599,8 +607,10 @@ void run_line(std::ostream &out, world &w, std::string const &line)
 
 int main(int argc, char **argv)
 {
-    std::ios::sync_with_stdio(false);
     std::string const mode = argc > 1 ? argv[1] : "run";
+    // the stdout modes run like an ordinary program (default stream
+    // synchronisation); only the observation modes untie the streams for speed
+    if (mode == "run" || mode == "threads") std::ios::sync_with_stdio(false);
     if (mode == "run")
     {
         world w;
@@ -612,14 +622,16 @@ int main(int argc, char **argv)
     {
         // child process for C14: every argument is one write (hex) through the
         // real stdout_channel, issued via terminal::write
+        // read the whole script first: std::cin is tied to std::cout, so reading
+        // between writes would flush the stream and hide ordering problems
+        std::vector<byte_storage> chunks;
+        {
+            std::string line;
+            while (std::getline(std::cin, line)) chunks.push_back(unhex(line));
+        }
         stdout_channel ch;
         terminal term{ch};
-        std::string line;
-        while (std::getline(std::cin, line))
-        {
-            auto const b = unhex(line);
-            term.write(bytes(b.data(), b.size()));
-        }
+        for (auto const &b : chunks) term.write(bytes(b.data(), b.size()));
         return 0;
     }
     if (mode == "stdout-ops")
@@ -627,11 +639,14 @@ int main(int argc, char **argv)
         // the same terminal operations through stdout_channel: script lines
         // of kind T only, single terminal id 0; nothing but the channel's
         // output goes to stdout
+        std::vector<std::string> all_lines;
+        {
+            std::string l;
+            while (std::getline(std::cin, l)) all_lines.push_back(l);
+        }
         stdout_channel ch;
         std::unique_ptr<terminal> term;
-        std::string line;
-        std::ostringstream sink;
-        while (std::getline(std::cin, line))
+        for (auto const &line : all_lines)
         {
             toks t;
             std::istringstream is(line);
